@@ -223,3 +223,17 @@ func (s *Sim) Reader() *native.NativeService {
 	}
 	return ns
 }
+
+// Keys returns the raw store keys having the given prefix (unsorted).
+func (s *Sim) Keys(prefix string) []string {
+	var out []string
+	for k := range s.cur {
+		if len(k) >= len(prefix) && k[:len(prefix)] == prefix {
+			out = append(out, k)
+		}
+	}
+	return out
+}
+
+// Raw returns the raw store value of a raw key ("" if absent).
+func (s *Sim) Raw(k string) string { return s.cur[k] }
